@@ -58,8 +58,8 @@ func parsePathAnnotation(annotation *regexp.Regexp, lines []*ast.Comment) (cnt p
 			matches := annotation.FindStringSubmatch(line)
 			if len(matches) > 3 {
 				cnt.Method, cnt.Path, cnt.ID = matches[1], matches[2], matches[len(matches)-1]
-				cnt.Tags = rxSpace.Split(matches[3], -1)
-				if len(matches[3]) == 0 {
+				cnt.Tags = strings.Fields(matches[3])
+				if len(cnt.Tags) == 0 {
 					cnt.Tags = nil
 				}
 				justMatched = true
